@@ -124,13 +124,13 @@ REG['C19'] = {
     'level': 'proof',
     'design_ref': '5/C19',
     'technique': 'Kani harnesses with the index symbolic over each finite domain against an independent rule encoding (spec/classical_p.rs) + complete enumeration by native execution of every getter',
-    'level_text': 'Finite domains, decided completely. Deductive part (Kani, real getters compiled in place, index symbolic over the whole domain): stem element/directions/rhymes, ten-star (10x10), five/six combinations, clash, harm, hidden main stem, branch element/direction/zodiac/ominous. Complete enumeration by execution (class L, exhaustive = the whole domain): ALL attributes incl. those whose Kani harness exceeds the solver budget (growth stages 10x12, polarity, hidden middle/residual stems, Nayin, Xun, void branches, 28 mansions, nine stars, foetus tables, 366 zodiac-sign days, involution / inverse-pair laws).',
-    'level_note': 'oracle = spec/classical_p.rs, written from the classical rules quoted in its comments, not copied from the library tables; name tables themselves (e.g. SOUND_NAMES strings) are data and not compared with an outside source; harnesses c19_k_terrain*, c19_k_stem_polarity, c19_k_branch_hide_middle/residual time out in CBMC (string-based enum equality) and are replaced by the exhaustive run',
+    'level_text': 'Finite domains, decided completely. Deductive part (Kani, real getters compiled in place, index symbolic over the whole domain): stem element/directions/rhymes, ten-star (10x10), five/six combinations, clash, harm, hidden main / middle / residual stems, branch element/direction/zodiac/ominous, stem polarity and the twelve growth stages (10 x 12, one harness per stem). Complete enumeration by execution (class L, exhaustive = the whole domain): ALL attributes incl. those with no Kani harness (Nayin, Xun, void branches, 28 mansions, nine stars, foetus tables, 366 zodiac-sign days, involution / inverse-pair laws).',
+    'level_note': 'oracle = spec/classical_p.rs, written from the classical rules quoted in its comments, not copied from the library tables; name tables themselves (e.g. SOUND_NAMES strings) are data and not compared with an outside source; the growth-stage / polarity harnesses replace the Display impl of YinYang by a plain write_str of the same text (the `write!` machinery behind to_string() == to_string() is intractable), and the Option-valued hidden-stem getters forget their result after reading it (drop glue)',
     'functions': ['HeavenStem::get_element/get_yin_yang/get_direction/get_joy_direction/get_yang_direction/get_yin_direction/get_wealth_direction/get_mascot_direction/get_terrain/get_ten_star/get_combine/combine',
                   'EarthBranch::get_element/get_hide_heaven_stem_*/get_zodiac/get_direction/get_opposite/get_ominous/get_combine/combine/get_harm',
                   'SixtyCycle::get_heaven_stem/get_earth_branch/get_sound/get_ten/get_extra_earth_branches', 'Element::*', 'Direction::get_element', 'NineStar::*', 'TwentyEightStar::*', 'TwelveStar::get_ecliptic', 'FetusDay::new', 'SolarDay::get_constellation', 'MinorRen::*'],
     'K': [
-        dict(id='c19_k', prefix=True, min_count=17,
+        dict(id='c19_k', prefix=True, min_count=29,
              fn='HeavenStem / EarthBranch getters', clause='getter(index) == first-principles rule(index) for every index of the domain',
              paired_leaf=dict(check='c19_attributes', range=(0, 0), chunks=1)),
     ],
